@@ -589,6 +589,19 @@ void _mi_error_message(int err, const char* fmt, ...) {
 #include <string.h> // strstr
 
 
+// is `s` exactly one of the `;` separated words in `words`?
+static bool mi_option_is_word_of(const char* words, const char* s) {
+  const size_t len = _mi_strlen(s);
+  const char* w = words;
+  while (*w != 0) {
+    const char* end = w;
+    while (*end != 0 && *end != ';') { end++; }
+    if ((size_t)(end - w) == len && _mi_strnicmp(w, s, len) == 0) return true;
+    w = (*end == ';' ? end + 1 : end);
+  }
+  return false;
+}
+
 static void mi_option_init(mi_option_desc_t* desc) {
   // Read option value from the environment
   char s[64 + 1];
@@ -611,11 +624,11 @@ static void mi_option_init(mi_option_desc_t* desc) {
       buf[i] = _mi_toupper(s[i]);
     }
     buf[len] = 0;
-    if (buf[0] == 0 || strstr("1;TRUE;YES;ON", buf) != NULL) {
+    if (buf[0] == 0 || mi_option_is_word_of("1;TRUE;YES;ON", buf)) {
       desc->value = 1;
       desc->init = INITIALIZED;
     }
-    else if (strstr("0;FALSE;NO;OFF", buf) != NULL) {
+    else if (mi_option_is_word_of("0;FALSE;NO;OFF", buf)) {
       desc->value = 0;
       desc->init = INITIALIZED;
     }
